@@ -31,10 +31,10 @@ def run_case(arts, limit, asc, order_field=True):
     expr = 'meta.sel == "1"'
     if limit is not None:
         expr += ' LIMIT %d' % limit
-        if order_field: expr += ' ORDER BY meta.k ' + ('ASC' if asc else 'DESC')
+        if order_field: expr += ' ORDER BY meta.k' + ('' if asc is None else (' ASC' if asc else ' DESC'))      # no direction given: descending
     res = query(FakeScanner(arts), [expr])
     selected = [(b, d.get('meta', {}).get('k') if order_field else d.get('build', {}).get('date')) for b, d in arts if d['meta'].get('sel') == '1']
-    ok, why = valid_retention(selected, res, limit, asc if order_field else False)
+    ok, why = valid_retention(selected, res, limit, bool(asc) if order_field else False)
     return ok, why, expr, res
 
 def gen_cases(seed, budget):
@@ -47,9 +47,10 @@ def gen_cases(seed, budget):
                 for i, (k, s) in enumerate(zip(ks, sel)):
                     meta = {'sel': s}
                     if k is not None: meta['k'] = k
-                    arts.append((bytes([i + 1]) * 20, {'meta': meta, 'build': ({'date': k} if k is not None else {})}))
+                    # (the default sort field build.date orders the artifacts the other way round than meta.k)
+                    arts.append((bytes([i + 1]) * 20, {'meta': meta, 'build': ({'date': {'a': 'c', 'b': 'b', 'c': 'a'}[k]} if k is not None else {})}))
                 for limit in (None, 1, 2, 3):
-                    for asc in (False, True):
+                    for asc in (False, True, None):
                         yield arts, limit, asc, True
                     yield arts, limit, False, False
     rnd = random.Random(seed)
@@ -60,8 +61,9 @@ def gen_cases(seed, budget):
             k = rnd.choice([None, 'a', 'b', 'c', 'd', 'ab'])
             meta = {'sel': rnd.choice('1110')}
             if k is not None: meta['k'] = k
-            arts.append((bytes([i + 1]) * 20, {'meta': meta, 'build': ({'date': k} if k is not None else {})}))
-        yield arts, rnd.choice([None, 1, 2, 3, 4]), rnd.random() < .5, rnd.random() < .8
+            dk = rnd.choice([None, 'a', 'b', 'c', 'd', 'ab'])
+            arts.append((bytes([i + 1]) * 20, {'meta': meta, 'build': ({'date': dk} if dk is not None else {})}))
+        yield arts, rnd.choice([None, 1, 2, 3, 4]), rnd.choice([True, False, None]), rnd.random() < .8
 
 def multi_expression_case(rnd):
     """two expressions over one archive (distinct keys, so every LIMIT selection is unique): result must be the union"""
